@@ -632,6 +632,9 @@ func (fr *Frame) bigMethod(b *ssa.BasicBlock, st *State, m string, args []Val, r
 		cy := fc.freshConst("bezout_y", "Int")
 		fc.addFact("true", sAnd(sApp(">=", g, "0"), sEq(sApp("+", sApp("*", a, cx), sApp("*", bb, cy)), g),
 			sImp(sOr(sNot(sEq(a, "0")), sNot(sEq(bb, "0"))), sApp(">", g, "0"))))
+		// the cofactors of the extended Euclidean algorithm are bounded by the other operand
+		fr.trust("math/big.Int.GCD: the Bezout coefficients satisfy |x| <= |b| and |y| <= |a| (extended Euclidean algorithm; not stated in the package documentation)")
+		fc.addFact("true", sImp(sAnd(sNot(sEq(a, "0")), sNot(sEq(bb, "0"))), sAnd(sApp("<=", sApp("absI", cx), sApp("absI", bb)), sApp("<=", sApp("absI", cy), sApp("absI", a)))))
 		// write x, y when non-nil, then z (z last, as in math/big when aliased the result wins)
 		xr, yr := arg(1), arg(2)
 		curBV := fc.get(st, hBV)
